@@ -1546,9 +1546,14 @@ class Crystal(object):
         Gmin = min(np.dot(G, G) for G in self.BZG)
         for k in kptfull:
             if np.dot(k, k) >= Gmin:
-                for G in self.BZG:
-                    if np.dot(k, G) > np.dot(G, G):
-                        k -= 2. * G
+                # fold until no zone face is violated (|k| decreases with every fold, so this terminates)
+                moved = True
+                while moved:
+                    moved = False
+                    for G in self.BZG:
+                        if np.dot(k, G) > np.dot(G, G) * (1 + 1e-12):
+                            k -= 2. * G
+                            moved = True
         return kptfull
 
     def reducekptmesh(self, kptfull, threshold=None):
